@@ -252,8 +252,8 @@ def _flips(item, seed, tier):
 
 def run(ctx):
     quick = ctx.tier == "quick"
-    bases = [1, 300, 65000] if quick else [1, 7, 300, 40000, 65436]
-    depth = 2 if quick else 4
+    bases = [1, 300, 65000] if quick else [1, 2, 7, 99, 300, 40000, 65436, 65534]
+    depth = 2 if quick else 7
     work = [(b, depth, SYMS) for b in bases]
     ctx.pmap(_bfs, work)
     flips = []
